@@ -153,8 +153,12 @@ func c13R3(c *Ctx) {
 	c06R2as(c, "R3")
 }
 
-func c13R5(c *Ctx) {
-	rule := c.R.Rule("R5", "request bookkeeping: BlockPool.AddBlock accepts a block only through bpRequester.setBlock, which stores it only when no block is held yet and the sending peer is the one the height was requested from", 3)
+func c13R5(c *Ctx) { requestBookkeepingRule(c, "R5") }
+
+// requestBookkeepingRule is shared by C13-R5 and C08-R10 (a duplicate block response must be dropped:
+// setBlock's notification send is unbuffered-once and happens under pool.mtx).
+func requestBookkeepingRule(c *Ctx, id string) {
+	rule := c.R.Rule(id, "request bookkeeping: BlockPool.AddBlock accepts a block only through bpRequester.setBlock, which stores it only when no block is held yet and the sending peer is the one the height was requested from", 3)
 	if f := c.Anchor(rule, "gemmill/blockchain.(*bpRequester).setBlock"); f != nil {
 		sts := f.FieldStores("gemmill/blockchain.bpRequester", "block")
 		if len(sts) != 1 {
